@@ -330,3 +330,7 @@ def set_header_plain_wrap(ck, P, R="ATOM/set-header-wrap"):
                       "deflate::set_header tests %s of wrap against 2 instead of the stored value: a gzip stream that has written its "
                       "trailer (wrap negated) is accepted where zlib-ng returns Z_STREAM_ERROR" % sorted(s.calls), where(f))
     ck.floor(R, n, 1)
+
+# session 5 (round 12)
+EXPLANATION = EXPLANATION + " " + (
+    'ATOM/set-header-wrap (round 12): deflate::set_header compares the stored wrap with 2 (a finished gzip stream has wrap negated and is refused, as in zlib-ng).')
